@@ -3,6 +3,7 @@ package hamt
 import (
 	"context"
 	"fmt"
+	"sync"
 
 	bitfield "github.com/ipfs/go-bitfield"
 	"github.com/ipfs/go-unixfsnode/data"
@@ -26,11 +27,14 @@ var _ ipld.ADL = UnixFSHAMTShard(nil)
 type UnixFSHAMTShard = *_UnixFSHAMTShard
 
 type _UnixFSHAMTShard struct {
-	ctx          context.Context
-	_substrate   dagpb.PBNode
-	data         data.UnixFSData
-	lsys         *ipld.LinkSystem
-	bitfield     bitfield.Bitfield
+	ctx        context.Context
+	_substrate dagpb.PBNode
+	data       data.UnixFSData
+	lsys       *ipld.LinkSystem
+	bitfield   bitfield.Bitfield
+	// memoLk guards shardCache and cachedLength: a reified node is read-only
+	// for its users and may be shared between goroutines
+	memoLk       sync.Mutex
 	shardCache   map[ipld.Link]*_UnixFSHAMTShard
 	cachedLength int64
 }
@@ -148,7 +152,9 @@ func AttemptHAMTShardFromNode(ctx context.Context, nd ipld.Node, lsys *ipld.Link
 }
 
 func (n UnixFSHAMTShard) loadChild(pbLink dagpb.PBLink) (UnixFSHAMTShard, error) {
+	n.memoLk.Lock()
 	cached, ok := n.shardCache[pbLink.FieldHash().Link()]
+	n.memoLk.Unlock()
 	if ok {
 		return cached, nil
 	}
@@ -166,7 +172,14 @@ func (n UnixFSHAMTShard) loadChild(pbLink dagpb.PBLink) (UnixFSHAMTShard, error)
 	if pf, cf := n.data.FieldFanout().Must().Int(), und.data.FieldFanout().Must().Int(); pf != cf {
 		return nil, fmt.Errorf("hamt child shard fanout (%d) does not match its parent's (%d)", cf, pf)
 	}
-	n.shardCache[pbLink.FieldHash().Link()] = und
+	n.memoLk.Lock()
+	if cached, ok := n.shardCache[pbLink.FieldHash().Link()]; ok {
+		// another reader loaded the same child meanwhile: share its node
+		und = cached
+	} else {
+		n.shardCache[pbLink.FieldHash().Link()] = und
+	}
+	n.memoLk.Unlock()
 	return und, nil
 }
 
@@ -271,8 +284,11 @@ func (n UnixFSHAMTShard) ListIterator() ipld.ListIterator {
 // Length returns the length of a list, or the number of entries in a map,
 // or -1 if the node is not of list nor map kind.
 func (n UnixFSHAMTShard) length() (int64, error) {
-	if n.cachedLength != -1 {
-		return n.cachedLength, nil
+	n.memoLk.Lock()
+	cachedLength := n.cachedLength
+	n.memoLk.Unlock()
+	if cachedLength != -1 {
+		return cachedLength, nil
 	}
 	maxPadLen := maxPadLength(n.data)
 	total := int64(0)
@@ -298,7 +314,9 @@ func (n UnixFSHAMTShard) length() (int64, error) {
 		}
 	}
 	verifYield("length")
+	n.memoLk.Lock()
 	n.cachedLength = total
+	n.memoLk.Unlock()
 	return total, nil
 }
 
